@@ -131,6 +131,16 @@ def handle (st : St) (idx : Nat) (line : String) : St × String :=
                            fails := if implOut = model then [] else
                              ["C08:connection-accepted-in-a-burst-not-served-in-order-by-one-loop", "C15:connection-accepted-in-a-burst-not-served"],
                            tags := [s!"burst k={k}"] })
+    | "conn" :: "pipeline" :: rest =>
+      -- every message a handler's Write returned success for is in the transport when the
+      -- connection is quiescent (C07_quiescent; respWrite_healthy: Write flushes before it returns)
+      let pat := (kv rest "pat").getD ""
+      let nreq := (pat.toList.filter (· = 'R')).length
+      let model := s!"answers={nreq}/{nreq}"
+      let implOut := " ".intercalate implToks
+      (st, emit idx impl { model := model,
+                           fails := if implOut = model then [] else ["C07:message-reported-written-has-not-reached-the-transport"],
+                           tags := [s!"pipeline n={pat.length}"] })
     | "conn" :: "stall" :: rest =>
       -- however a connection with a stuck writer ends, its transport is closed - which is what
       -- fails the stuck write (C15_write_contained / C15_late_write_fails) -, the notification
